@@ -46,10 +46,10 @@ PROP_WORLDS = {
     "C08": [("session", 1.0)],
     "C14": [("session", 1.0)],
     "C18": [("repeat", 1.0)],
-    "C19": [("session", 1.0)],
-    "C09": [("session", 1.0)],
-    "C10": [("session", 1.0)],
-    "C11": [("session", 1.0)],
+    "C19": [("session", 0.7), ("rebal", 0.3)],
+    "C09": [("rebal", 0.6), ("session", 0.4)],
+    "C10": [("rebal", 0.5), ("session", 0.5)],
+    "C11": [("rebal", 0.5), ("session", 0.5)],
 }
 
 LEVELS = {
